@@ -35,9 +35,9 @@ func monC05(c *drv.Ctx) {
 		case 0:
 			return writerOpts{}
 		case 1:
-			return writerOpts{failAt: 1, failMode: cs.R.Intn(3), failErr: cs.R.Intn(5)}
+			return writerOpts{failAt: 1, failMode: cs.R.Intn(3), failErr: cs.R.Intn(5), failOnce: cs.R.Intn(2) == 0}
 		case 2:
-			return writerOpts{failAt: 2, failMode: cs.R.Intn(3), failErr: cs.R.Intn(5)}
+			return writerOpts{failAt: 2, failMode: cs.R.Intn(3), failErr: cs.R.Intn(5), failOnce: cs.R.Intn(2) == 0}
 		}
 		return writerOpts{bytesWriter: true, initClass: k - 3, initLen: []int{0, 1, 100, 4095, 4096, 5000}[cs.R.Intn(6)]}
 	}
@@ -57,7 +57,7 @@ func monC05(c *drv.Ctx) {
 				ops = append(ops, wOp{Kind: wMalloc, N: 1}, wOp{Kind: wFlush}, wOp{Kind: wWriteBinary, N: 1}, wOp{Kind: wFlush})
 			}
 			o := cfg(cs, k)
-			cs.Desc = M{"ops": wOpsString(ops), "bytes_writer": o.bytesWriter, "init_class": o.initClass, "init_len": o.initLen, "sink_fail_at": o.failAt, "sink_fail_mode": o.failMode, "sink_error": o.failErr}
+			cs.Desc = M{"ops": wOpsString(ops), "bytes_writer": o.bytesWriter, "init_class": o.initClass, "init_len": o.initLen, "sink_fail_at": o.failAt, "sink_fail_mode": o.failMode, "sink_error": o.failErr, "sink_recovers": o.failOnce}
 			nt := runWriterHistory(cs, ops, o)
 			cs.Count(nt, wOpsString(ops), k, o.initLen)
 			if nt && cs.WantSample() && cs.Idx%1201 == 2 {
@@ -90,10 +90,11 @@ func monC05(c *drv.Ctx) {
 				}
 			}
 			o.failAt = 1 + r.Intn(nf+1)
+			o.failOnce = r.Intn(2) == 0
 			o.failMode = r.Intn(3)
 			o.failErr = r.Intn(5)
 		}
-		cs.Desc = M{"ops": wOpsString(ops), "bytes_writer": o.bytesWriter, "init_class": o.initClass, "init_len": o.initLen, "sink_fail_at": o.failAt, "sink_fail_mode": o.failMode, "sink_error": o.failErr}
+		cs.Desc = M{"ops": wOpsString(ops), "bytes_writer": o.bytesWriter, "init_class": o.initClass, "init_len": o.initLen, "sink_fail_at": o.failAt, "sink_fail_mode": o.failMode, "sink_error": o.failErr, "sink_recovers": o.failOnce}
 		nt := runWriterHistory(cs, ops, o)
 		cs.Count(nt, wOpsString(ops), o)
 		if nt && cs.WantSample() && n < 10 && cs.Idx%173 == 1 {
@@ -101,7 +102,7 @@ func monC05(c *drv.Ctx) {
 		}
 	})
 	// very large payloads, also as the very first operation on a fresh or just-flushed writer
-	bigs := []int{65535, 65536, 65537, 131072, 200000, 1 << 20}
+	bigs := []int{65535, 65536, 65537, 131072, 200000, 1 << 20, 1<<20 + 1, 3 << 20}
 	c.Stage("big-writes", int64(len(bigs)*3*5), true, func(cs *drv.Case) {
 		n := bigs[cs.Idx%int64(len(bigs))]
 		kind := int(cs.Idx/int64(len(bigs))) % 3
@@ -123,6 +124,35 @@ func monC05(c *drv.Ctx) {
 		cs.C.Obs("big-write cases", 1)
 	})
 
+	// a great deal accumulated between two flushes, in many pieces: whatever bound an implementation puts on
+	// its buffer, regions handed out stay the caller's to fill until Flush and nothing leaves before it
+	accTotals := []int{1<<20 + 4097, 2<<20 + 1, 5 << 20}
+	c.Stage("accumulate-megabytes", int64(len(accTotals)*2*2), true, func(cs *drv.Case) {
+		total := accTotals[cs.Idx%int64(len(accTotals))]
+		piece := []int{65536, 300000}[(cs.Idx/int64(len(accTotals)))%2]
+		bw := cs.Idx/int64(len(accTotals)*2) == 1
+		var ops []wOp
+		for acc, k := 0, 0; acc < total; acc, k = acc+piece, k+1 {
+			switch k % 3 {
+			case 0:
+				ops = append(ops, wOp{Kind: wMalloc, N: piece, Lazy: true})
+			case 1:
+				ops = append(ops, wOp{Kind: wWriteBinary, N: piece})
+			default:
+				ops = append(ops, wOp{Kind: wMalloc, N: piece})
+			}
+			if k%4 == 3 {
+				ops = append(ops, wOp{Kind: wMalloc, N: 7, Lazy: true})
+			}
+		}
+		ops = append(ops, wOp{Kind: wFlush}, wOp{Kind: wMalloc, N: 5}, wOp{Kind: wFlush})
+		o := writerOpts{bytesWriter: bw, initClass: 2, initLen: 9}
+		cs.Desc = M{"pieces": len(ops) - 3, "piece_bytes": piece, "accumulated_before_flush": total, "bytes_writer": bw}
+		runWriterHistory(cs, ops, o)
+		cs.Count(true, "acc", total, piece, bw)
+		cs.C.Obs("histories accumulating more than 1 MiB between flushes", 1)
+	})
+
 	// sink failing at every k for histories with many flushes
 	c.Stage("fail-at-every-k", c.Pick(300, 20000), false, func(cs *drv.Case) {
 		r := cs.R
@@ -139,7 +169,7 @@ func monC05(c *drv.Ctx) {
 			}
 		}
 		for k := 1; k <= total+1; k++ {
-			o := writerOpts{failAt: k, failMode: k % 3, failErr: (k / 3) % 5}
+			o := writerOpts{failAt: k, failMode: k % 3, failErr: (k / 3) % 5, failOnce: (k+int(cs.Idx))%2 == 0}
 			cs.Desc = M{"ops": wOpsString(ops), "sink_fail_at": k}
 			runWriterHistory(cs, ops, o)
 		}
